@@ -83,6 +83,61 @@ def tocoef(c):
     raise TypeError(type(c))
 
 
+class NonFin:
+    """IEEE non-finite value produced by a division by the zero element (reverse-mode rules of det / inv divide by a pivot that
+    is identically zero when a padded, structurally singular matrix is differentiated, and filter the result with isnan/isinf).
+      kind 'inf' : x/0 with x != 0 (infinite modulus: isinf is True, 1/it is 0)
+      kind 'nf'  : any value derived from a non-finite one (inf or nan: isnan|isinf is True, each alone is unknown)
+      kind 'bad' : finite-or-not unknown (e.g. x / 'nf'); querying or returning it is Unsupported
+    Only what the float cross-check of the same run confirms is relied upon (XLA's complex arithmetic)."""
+    _n = 0
+
+    def __init__(self, kind):
+        self.kind = kind
+        NonFin._n += 1
+        self.uid = NonFin._n
+
+    def __repr__(self):
+        return f"<{self.kind}#{self.uid}>"
+
+    def _d(self, o=None):
+        return NonFin("bad" if self.kind == "bad" or (isinstance(o, NonFin) and o.kind == "bad") else "nf")
+
+    def __add__(self, o):
+        if isinstance(o, np.ndarray) and o.ndim > 0:
+            return NotImplemented
+        return self._d(o)
+    __radd__ = __sub__ = __rsub__ = __mul__ = __rmul__ = __add__
+
+    def __truediv__(self, o):
+        if isinstance(o, np.ndarray) and o.ndim > 0:
+            return NotImplemented
+        return self._d(o)
+
+    def __rtruediv__(self, o):
+        if isinstance(o, NonFin):
+            return self._d(o)
+        if self.kind == "inf":
+            return o * 0
+        return NonFin("bad")
+
+    def __neg__(self):
+        return NonFin(self.kind)
+
+    def conj(self):
+        return NonFin(self.kind)
+
+    def __pow__(self, k):
+        return NonFin("bad")
+
+    def iszero(self):
+        from vc.common import Unsupported
+        raise Unsupported(f"a non-finite value ({self.kind}) reached a comparison / the result")
+
+    def evalf(self, point):
+        return complex("nan")
+
+
 class Fr:
     """n / prod(atom_k ^ e_k): the denominator is kept FACTORED as a multiset of monic 'atoms' (the polynomials that
     were divided by), so a common denominator is a cheap lcm of exponent vectors - no polynomial gcd is ever needed."""
@@ -150,6 +205,8 @@ class Fr:
     def __add__(a, b):
         if isinstance(b, np.ndarray) and b.ndim > 0:
             return NotImplemented
+        if isinstance(b, NonFin):
+            return b.__radd__(a)
         b = a._lift(b)
         if a.D == b.D:
             return Fr(a.n + b.n, a.D, a.sp)
@@ -164,9 +221,13 @@ class Fr:
     def __sub__(a, b):
         if isinstance(b, np.ndarray) and b.ndim > 0:
             return NotImplemented
+        if isinstance(b, NonFin):
+            return b.__rsub__(a)
         return a + (-a._lift(b))
 
     def __rsub__(a, b):
+        if isinstance(b, NonFin):
+            return b - a
         return a._lift(b) - a
 
     @staticmethod
@@ -183,6 +244,8 @@ class Fr:
     def __mul__(a, b):
         if isinstance(b, np.ndarray) and b.ndim > 0:
             return NotImplemented
+        if isinstance(b, NonFin):
+            return b.__rmul__(a)
         b = a._lift(b)
         tr = a.sp.trunc if a.sp is not None else None
         if tr is not None and len(a.n) > 1 and len(b.n) > 1:
@@ -216,9 +279,11 @@ class Fr:
     def __truediv__(a, b):
         if isinstance(b, np.ndarray) and b.ndim > 0:
             return NotImplemented
+        if isinstance(b, NonFin):
+            return b.__rtruediv__(a)
         b = a._lift(b)
         if b.n == 0:
-            raise ZeroDivisionError("division by the zero element of the function field")
+            return NonFin("inf" if a.n != 0 else "nf")
         if a.n == 0:
             return Fr(a.n, None, a.sp)
         num = Fr._times(a.n, b.D)
@@ -246,6 +311,8 @@ class Fr:
         return Fr(num, Fr._mulD(a.D, ((atom, 1),)), a.sp)
 
     def __rtruediv__(a, b):
+        if isinstance(b, NonFin):
+            return b / a
         return a._lift(b) / a
 
     def __pow__(a, k):
